@@ -1,4 +1,5 @@
 import Bgpfu.Model.Session
+import Bgpfu.Lemmas.SessionLive
 /-!
 # C05 — each RPC caller receives exactly the reply to its own request
 
@@ -33,5 +34,249 @@ future, is lost; requests 2 and 3 never complete. -/
 theorem drop_in_reqlock_window_cex :
     ((St.rounds 4 (St.run { lockAcrossSend := true } d13Schedule)).futs.map (·.pc)) = [.dropped, .reading, .waitRx]
     ∧ (St.run { lockAcrossSend := true } d13Schedule).lost = [⟨some 2, 22, true⟩] := by decide
+
+/-! ## Safety, in every reachable state of the current code
+
+`Inv` (Lemmas/Session.lean) is an inductive invariant: it holds initially and is preserved by every
+action, so it holds after any action list (`run_inv`). The theorems below are its consequences. -/
+
+/-- **no message-id is ever reused**: the ids written to the transport are strictly increasing (and
+bounded by the id counter), whatever sends failed in the builder, in the transport, or were blocked. -/
+theorem ids_fresh (acts : List Act) :
+    (St.run {} acts).sent.Pairwise (· < ·) ∧ ∀ x ∈ (St.run {} acts).sent, x ≤ (St.run {} acts).nextId :=
+  ⟨(run_inv acts).1.sentInc, (run_inv acts).1.sentLe⟩
+
+/-- **own reply only**: a future that resolved `ok t` carries message-id `i` such that the server
+delivered a message with id `i`, payload `t`, whose phase 2 succeeds. -/
+theorem own_reply_only (acts : List Act) (f : Fut) (t : Nat) (hf : f ∈ (St.run {} acts).futs)
+    (hpc : f.pc = .done (.ok t)) :
+    ∃ m ∈ (St.run {} acts).delivered, m.id = some f.id ∧ m.tag = t ∧ m.p2 = true :=
+  (run_inv acts).1.resOk f.fid f t ((run_inv acts).find hf) hpc
+
+/-- **no reply is delivered twice**: two distinct futures have distinct message-ids, so (with
+`own_reply_only`) no delivered message can be the source of both results. -/
+theorem no_double_delivery (acts : List Act) (f g : Fut) (hf : f ∈ (St.run {} acts).futs)
+    (hg : g ∈ (St.run {} acts).futs) (hne : f ≠ g) :
+    f.id ≠ g.id ∧ f.fid ≠ g.fid ∧ ∀ m : Msg, ¬ (m.id = some f.id ∧ m.id = some g.id) := by
+  have hinv := run_inv acts
+  have h1 : f.id ≠ g.id := fun he => hne (eq_of_map_nodup (·.id) hinv.idNodup hf hg he)
+  refine ⟨h1, fun he => hne (eq_of_map_nodup (·.fid) hinv.1.fidNodup hf hg he), ?_⟩
+  rintro m ⟨h2, h3⟩
+  rw [h2] at h3
+  exact h1 (Option.some.inj h3)
+
+/-- **unknown ids are never delivered**: every `ok` stems from a message that passed phase 1 with the
+id of the future that got it; if no future has id `i`, no result stems from a message with id `i`. -/
+theorem unknown_id_never_delivered (acts : List Act) (f : Fut) (t : Nat) (hf : f ∈ (St.run {} acts).futs)
+    (hpc : f.pc = .done (.ok t)) :
+    ∃ m ∈ (St.run {} acts).delivered, m.tag = t ∧ m.id = some f.id ∧ m.id ≠ none ∧
+      ∀ i, (∀ g ∈ (St.run {} acts).futs, g.id ≠ i) → m.id ≠ some i := by
+  obtain ⟨m, hm, h1, h2, _⟩ := own_reply_only acts f t hf hpc
+  refine ⟨m, hm, h2, h1, by simp [h1], ?_⟩
+  intro i hi he
+  rw [h1] at he
+  exact hi f hf (Option.some.inj he)
+
+/-- … and operationally: a future that takes a message off the transport which fails phase 1, or
+whose id has no pending request, fails; the message goes to `lost`, no slot changes. -/
+theorem unknown_id_goes_to_lost (acts : List Act) (f : Fid) (fu : Fut) (m : Msg) (rest : List Msg)
+    (hf : (St.run {} acts).fut f = some fu) (hr : Reads (St.run {} acts) f fu)
+    (hi : (St.run {} acts).inbox = m :: rest)
+    (hb : m.id = none ∨ ∃ mid, m.id = some mid ∧ (St.run {} acts).slot mid ≠ some .pending) :
+    let s' := (St.run {} acts).poll f
+    s'.fut f = some { fu with pc := .done .err } ∧ s'.lost = (St.run {} acts).lost ++ [m] ∧
+      s'.slots = (St.run {} acts).slots ∧ ∀ g, g ≠ f → s'.fut g = (St.run {} acts).fut g := by
+  intro s'
+  have e : s' = _ := poll_bad_msg (run_inv acts) hf hr hi hb
+  rw [e]
+  simp only [St.fut_eq, findFut_setPc] at hf ⊢
+  refine ⟨by simp [hf], trivial, trivial, ?_⟩
+  intro g hg
+  simp [hg]
+
+/-- **the receive lock is never leaked**: in every reachable state the lock is free only if nobody
+waits for it; its owner is a live future (handed the lock, or reading from the transport), never a
+finished or dropped one; exactly the futures queued or handed the lock are in `waitRx`. -/
+theorem rx_lock_never_leaked (acts : List Act) :
+    let s := St.run {} acts
+    (s.rxOwner = none → s.rxQueue = []) ∧
+    (∀ g, s.rxOwner = some g → ∃ fu ∈ s.live, fu.fid = g ∧ (fu.pc = .waitRx ∨ fu.pc = .reading)) ∧
+    (∀ g ∈ s.rxQueue, s.rxOwner ≠ some g ∧ ∃ fu ∈ s.live, fu.fid = g ∧ fu.pc = .waitRx) ∧
+    s.rxQueue.Nodup ∧
+    (∀ fu ∈ s.futs, fu.pc = .waitRx → s.rxOwner = some fu.fid ∨ fu.fid ∈ s.rxQueue) ∧
+    (∀ fu ∈ s.futs, fu.pc = .reading → s.rxOwner = some fu.fid) := by
+  intro s
+  have hinv : Inv s := run_inv acts
+  refine ⟨hinv.2.freeOk, ?_, ?_, hinv.1.queueNodup, ?_, ?_⟩
+  · intro g hg
+    obtain ⟨fu, hf, hpc⟩ := hinv.2.ownOk g hg (by simp)
+    refine ⟨fu, ?_, findFut_fid hf, hpc⟩
+    rw [St.live_eq, List.mem_filter]
+    exact ⟨findFut_mem hf, by rcases hpc with h | h <;> simp [Fut.isLive, h]⟩
+  · intro g hg
+    obtain ⟨_, h2, fu, hf, hpc⟩ := hinv.2.qOk g hg
+    refine ⟨h2, fu, ?_, findFut_fid hf, hpc⟩
+    rw [St.live_eq, List.mem_filter]
+    exact ⟨findFut_mem hf, by simp [Fut.isLive, hpc]⟩
+  · intro fu hm hpc
+    exact hinv.2.waitOk fu.fid fu (hinv.find hm) (by simp) hpc
+  · intro fu hm hpc
+    exact (hinv.2.readOk fu.fid fu (hinv.find hm) (by simp) hpc).1
+
+/-! ## Liveness under a fair scheduler (`St.rounds`: every live future is polled once per round) -/
+
+/-- **all complete** (responsive server, fair scheduler): in every reachable state that is `Clean`
+— transport open; every message on it passes both parse phases and answers a pending request, no
+two the same one; the reply of every live future is parked in its slot (passing phase 2) or on the
+transport — `inbox + live` fair rounds (or more) complete **every** live future with **its own**
+reply (`St.reply`: the message parked for its id, else the message with its id on the transport);
+no future is created, removed or re-labelled on the way. Drops, blocked sends and earlier failures
+anywhere in `acts` are allowed. -/
+theorem all_complete (acts : List Act) (hc : Clean (St.run {} acts)) (n : Nat)
+    (hn : (St.run {} acts).inbox.length + (St.run {} acts).live.length ≤ n) :
+    let s := St.run {} acts
+    (St.rounds n s).live = [] ∧
+    (St.rounds n s).futs.map (fun f => (f.fid, f.id)) = s.futs.map (fun f => (f.fid, f.id)) ∧
+    ∀ f0 ∈ s.live, ∀ f ∈ (St.rounds n s).futs, f.fid = f0.fid →
+      ∃ m, s.reply f0.id = some m ∧ m.id = some f0.id ∧ f.pc = .done (.ok m.tag) := by
+  intro s
+  have hinv : Inv s := run_inv acts
+  obtain ⟨h1, h2⟩ := clean_rounds hinv hc n hn
+  refine ⟨h1, rounds_keys n hinv, ?_⟩
+  intro f0 hf0 f hf hfid
+  obtain ⟨_, m, hr, hpc⟩ := h2 f0 hf0 f hf hfid
+  refine ⟨m, hr, ?_, hpc⟩
+  -- the reply found for `f0.id` does carry that id
+  simp only [St.reply, St.slot_eq] at hr
+  split at hr
+  · rename_i m' hs
+    cases hr
+    exact (hinv.1.readyOk f0.id m hs).1
+  · simpa using List.find?_some hr
+
+/-- **C14, session clause**: a future that takes a message failing phase 1 off the transport
+resolves with an error and hands the receive lock on; the message goes to `lost`; no slot, no other
+future and nothing else on the transport is touched. -/
+theorem others_still_delivered (acts : List Act) (f : Fid) (fu : Fut) (m : Msg) (rest : List Msg)
+    (hf : (St.run {} acts).fut f = some fu) (hr : Reads (St.run {} acts) f fu)
+    (hi : (St.run {} acts).inbox = m :: rest) (hm : m.id = none) :
+    let s := St.run {} acts
+    s.poll f = { s with inbox := rest, lost := s.lost ++ [m], futs := setPc f (.done .err) s.futs,
+                        rxOwner := s.rxQueue.head?, rxQueue := s.rxQueue.tail } ∧
+    (s.poll f).fut f = some { fu with pc := .done .err } ∧ (∀ g, g ≠ f → (s.poll f).fut g = s.fut g) ∧
+    (s.poll f).rxOwner ≠ some f := by
+  intro s
+  have hs : s = St.run {} acts := rfl
+  clear_value s; subst hs
+  have hinv : Inv (St.run {} acts) := run_inv acts
+  have e := poll_bad_msg hinv hf hr hi (.inl hm)
+  refine ⟨e, ?_, ?_, ?_⟩
+  · rw [e]; simp only [St.fut_eq, findFut_setPc] at hf ⊢; simp [hf]
+  · intro g hg; rw [e]; simp only [St.fut_eq, findFut_setPc]; simp [hg]
+  · have := (rx_lock_never_leaked (acts ++ [.poll f])).2.1 f
+    intro he
+    simp only [run_append] at this
+    obtain ⟨fu', hfu', hfid, hpc⟩ := this he
+    have h1 := (poll_inv f hinv).find (List.mem_filter.mp hfu').1
+    rw [hfid, e] at h1
+    simp only [findFut_setPc, if_true, St.fut_eq] at h1 hf
+    rw [hf] at h1
+    simp only [Option.map_some, Option.some.injEq] at h1
+    rw [← h1] at hpc
+    simp at hpc
+
+/-- … and the others still obtain their replies: if the rest of the transport and the other live
+futures satisfy the conditions of `all_complete`, the state after the failed read is `Clean`, so
+`all_complete` (applied to `acts ++ [.poll f]`) completes every other live future with its own reply. -/
+theorem others_complete_after_garbage (acts : List Act) (f : Fid) (fu : Fut) (m : Msg) (rest : List Msg)
+    (hf : (St.run {} acts).fut f = some fu) (hr : Reads (St.run {} acts) f fu)
+    (hi : (St.run {} acts).inbox = m :: rest) (hm : m.id = none)
+    (hopen : (St.run {} acts).closed = false)
+    (hrest : ∀ m' ∈ rest, m'.p2 = true ∧ m'.id.bind (St.run {} acts).slot = some .pending)
+    (hnodup : (rest.map (·.id)).Nodup)
+    (hothers : ∀ g ∈ (St.run {} acts).live, g.fid ≠ f →
+      (({ (St.run {} acts) with inbox := rest } : St).reply g.id).map (·.p2) = some true)
+    (n : Nat) (hn : rest.length + (St.run {} acts).live.length ≤ n + 1) :
+    let s' := (St.run {} acts).poll f
+    Clean s' ∧ (St.rounds n s').live = [] ∧
+    ∀ g0 ∈ (St.run {} acts).live, g0.fid ≠ f → ∀ g ∈ (St.rounds n s').futs, g.fid = g0.fid →
+      ∃ m', ({ (St.run {} acts) with inbox := rest } : St).reply g0.id = some m' ∧ g.pc = .done (.ok m'.tag) := by
+  intro s'
+  have hinv : Inv (St.run {} acts) := run_inv acts
+  have hclean : Clean s' := clean_after_bad hinv hf hr hi (.inl hm) hopen hrest hnodup hothers
+  have e : s' = _ := poll_bad_msg hinv hf hr hi (.inl hm)
+  have hs' : s' = St.run {} (acts ++ [.poll f]) := by simp [St.run, St.step, s']
+  -- the live futures of `s'` are those of `s` other than `f`
+  have hlive : ∀ g, g ∈ s'.live ↔ g ∈ (St.run {} acts).live ∧ g.fid ≠ f := by
+    intro g
+    rw [mem_live_iff (poll_inv f hinv), mem_live_iff hinv]
+    show findFut s'.futs g.fid = some g ∧ _ ↔ _
+    rw [e]
+    simp only [findFut_setPc_some]
+    constructor
+    · rintro ⟨⟨hgf, a, _, ha⟩ | ⟨hgf, hfg⟩, hl⟩
+      · rw [ha] at hl; simp [Fut.isLive] at hl
+      · exact ⟨⟨hfg, hl⟩, hgf⟩
+    · rintro ⟨⟨h1, h2⟩, h3⟩; exact ⟨.inr ⟨h3, h1⟩, h2⟩
+  have hlen : s'.inbox.length + s'.live.length ≤ n := by
+    have h1 : s'.inbox = rest := by rw [e]
+    have h2 : s'.live.length + 1 ≤ (St.run {} acts).live.length := by
+      have hfl : fu.isLive = true := by
+        rcases hr with h | ⟨h, _⟩ | ⟨h, _⟩ <;> simp [Fut.isLive, h]
+      have := liveCount_done .err hf hfl
+      show liveCount s'.futs + 1 ≤ liveCount (St.run {} acts).futs
+      rw [e]; exact Nat.le_of_eq this
+    rw [h1]; omega
+  have hall := all_complete (acts ++ [.poll f]) (hs' ▸ hclean) n (hs' ▸ hlen)
+  rw [← hs'] at hall
+  refine ⟨hclean, hall.1, ?_⟩
+  intro g0 hg0 hne g hg hfid
+  obtain ⟨m', hm', _, hpc⟩ := hall.2.2 g0 ((hlive g0).mpr ⟨hg0, hne⟩) g hg hfid
+  refine ⟨m', ?_, hpc⟩
+  rw [e] at hm'; exact hm'
+
+/-- **C07, session clause**: once the transport is closed and drained, a poll of the lock owner, or of
+any live future when the lock is free, finishes that future — with its parked reply if there is
+one (`parkedRes`), else with an error; `live` fair rounds leave no live future; every later
+`rpc()` fails and registers nothing. -/
+theorem close_fails_all (acts : List Act) (hc : (St.run {} acts).closed = true) (he : (St.run {} acts).inbox = []) :
+    let s := St.run {} acts
+    (∀ f fu, s.fut f = some fu → fu.isLive = true → (s.rxOwner = some f ∨ s.rxOwner = none) →
+      (s.poll f).fut f = some { fu with pc := .done (parkedRes (s.slot fu.id)) }) ∧
+    (∀ n, s.live.length ≤ n → (St.rounds n s).live = [] ∧
+      ∀ f0 ∈ s.live, ∀ f ∈ (St.rounds n s).futs, f.fid = f0.fid →
+        f.id = f0.id ∧ f.pc = .done (parkedRes (s.slot f0.id))) ∧
+    (∀ b, s.send b = ({ s with nextId := s.nextId + 1 }, .sendErr)) := by
+  intro s
+  have hinv : Inv s := run_inv acts
+  exact ⟨fun f fu hf hl ho => closed_poll_result hinv hc he hf hl ho,
+    fun n hn => closed_rounds hinv hc he n hn, fun b => closed_send hinv hc b⟩
+
+/-! ## The hypotheses are satisfiable (non-vacuity) -/
+
+/-- three pipelined requests, replies delivered out of order, the first future is reading: `Clean` -/
+example : Clean (St.run {} [.send true, .send true, .send true, .poll 0, .deliver ⟨some 3, 33, true⟩,
+    .deliver ⟨some 1, 11, true⟩, .poll 1, .deliver ⟨some 2, 22, true⟩]) := by decide
+
+example : ((St.rounds 6 (St.run {} [.send true, .send true, .send true, .poll 0, .deliver ⟨some 3, 33, true⟩,
+    .deliver ⟨some 1, 11, true⟩, .poll 1, .deliver ⟨some 2, 22, true⟩])).futs.map (·.pc))
+    = [.done (.ok 11), .done (.ok 22), .done (.ok 33)] := by decide
+
+/-- a clean state after a drop and with a parked reply -/
+example : Clean (St.run {} [.send true, .send true, .send true, .poll 0, .poll 1, .deliver ⟨some 2, 22, true⟩,
+    .poll 0, .drop 0, .deliver ⟨some 3, 33, true⟩]) := by decide
+
+/-- a reachable closed, drained state with live futures (one of them with its reply parked) -/
+example : let s := St.run {} [.send true, .send true, .send true, .poll 0, .poll 1, .deliver ⟨some 2, 22, true⟩,
+    .poll 0, .close]
+    s.closed = true ∧ s.inbox = [] ∧ s.live.length = 3 ∧ s.slot 2 = some (.ready ⟨some 2, 22, true⟩) ∧
+    (St.rounds 3 s).futs.map (·.pc) = [.done .err, .done (.ok 22), .done .err] := by decide
+
+/-- a reachable state in which a future reads a message failing phase 1 while another one waits -/
+example : let s := St.run {} [.send true, .send true, .poll 0, .poll 1, .deliver ⟨none, 0, false⟩,
+    .deliver ⟨some 2, 22, true⟩]
+    s.fut 0 = some ⟨0, 1, .reading⟩ ∧ Reads s 0 ⟨0, 1, .reading⟩ ∧ s.inbox.head? = some ⟨none, 0, false⟩ ∧
+    ((St.rounds 2 (s.poll 0)).futs.map (·.pc)) = [.done .err, .done (.ok 22)] := by
+  refine ⟨by decide, .inl rfl, by decide, by decide⟩
 
 end Session
